@@ -4,6 +4,7 @@ import (
 	"fmt"
 	"go/token"
 	"go/types"
+	"strconv"
 	"strings"
 
 	"golang.org/x/tools/go/ssa"
@@ -706,8 +707,40 @@ func (x *Exec) bytesToString(f *frame, v Val) string {
 	return s
 }
 
+// foldInt folds integer operations on literals (as the compiler does for constant
+// expressions), so that code and specifications agree syntactically on constants.
+func foldInt(op token.Token, a, b string) (string, bool) {
+	x, err1 := strconv.ParseInt(a, 10, 64)
+	y, err2 := strconv.ParseInt(b, 10, 64)
+	if err1 != nil || err2 != nil {
+		return "", false
+	}
+	switch op {
+	case token.ADD:
+		return IntLit(x + y), true
+	case token.SUB:
+		return IntLit(x - y), true
+	case token.MUL:
+		return IntLit(x * y), true
+	case token.SHL:
+		if y >= 0 && y < 63 {
+			return IntLit(x << uint(y)), true
+		}
+	case token.AND:
+		return IntLit(x & y), true
+	case token.OR:
+		return IntLit(x | y), true
+	}
+	return "", false
+}
+
 func (x *Exec) binop(op token.Token, a, b Val, opT types.Type, f *frame, n *ssa.BinOp) Val {
 	vc := x.vc
+	if !vc.BV && isInteger(opT) {
+		if r, ok := foldInt(op, a.S, b.S); ok {
+			return Val{S: r}
+		}
+	}
 	bv := vc.BV && isInteger(opT)
 	uns := isUnsigned(opT)
 	switch op {
